@@ -113,6 +113,7 @@ def ranges(lines):
 
 
 PLACES = ['x/f%d.conf', 'x/sub/f%d.conf', 'f%d.conf', 'x/sub/deep/f%d.conf']
+PLACE_PAIRS = [(1, 0), (2, 0), (3, 1), (0, 1), (1, 2), (2, 3), (0, 0), (3, 0), (1, 1)]
 
 
 def generated_cuts(tier):
@@ -145,6 +146,7 @@ def generated_cuts(tier):
                 out.append((base, [(MAINNAME, i, j, f1), (f1, i2, j2, PLACES[(n + 1) % 4] % 1)], True))
         # disjoint pairs (second range given in the coordinates after the first cut)
         n = 0
+        m = 0
         for a, (i, j) in enumerate(bal):
             for (i2, j2) in bal[a + 1:]:
                 if i2 < j:
@@ -152,9 +154,13 @@ def generated_cuts(tier):
                 n += 1
                 if tier == 'quick' and n % 4:
                     continue
+                m += 1
                 sh = (j - i) - 1
-                out.append((base, [(MAINNAME, i, j, PLACES[n % 4] % 0),
-                                   (MAINNAME, i2 - sh, j2 - sh, PLACES[(n + 2) % 4] % 1)], True))
+                # every ordered pair of placements comes round (the first fragment in another
+                # directory than the includer, the second reference relative to the includer)
+                p1, p2 = PLACE_PAIRS[m % len(PLACE_PAIRS)]
+                out.append((base, [(MAINNAME, i, j, PLACES[p1] % 0),
+                                   (MAINNAME, i2 - sh, j2 - sh, PLACES[p2] % 1)], True))
     return out
 
 
@@ -193,6 +199,11 @@ def make_files(base, cuts):
             files[new] = frag
             order.append(new)
     return sid, [[n, files[n]] for n in order]
+
+
+# fragments read through the REAL openResource (temp files, utf-8): a line starting with a character
+# that a decoder or a line reader might treat specially; the cut starts exactly at that line
+REALFILE_STARTS = ['\ufeff', '\u00a0', '\u2028', '\x0c', '\x1c', '\x85', '\ufffe', '#', ' ']
 
 
 class C06(P.TextMixin, Harness):
@@ -234,6 +245,8 @@ class C06(P.TextMixin, Harness):
         # inlined text is unbalanced too, so nothing but the fragment's own end can refuse it
         for sid, files in DANGLING:
             us.append({'schema': sid, 'files': files, 'balanced': False, 'base': 'dangling'})
+        for i in range(len(REALFILE_STARTS)):
+            us.append({'schema': 'S2', 'realfile': i, 'files': [], 'balanced': True, 'base': 'realfile'})
         for base, cuts, bal in (CUTS_Q if tier == 'quick' else CUTS_T) + generated_cuts(tier):
             sid, files = make_files(base, cuts)
             # the declared flag must agree with the nesting of every fragment (a hand-written entry
@@ -261,11 +274,43 @@ class C06(P.TextMixin, Harness):
             return ('crash', r[1])
         return ('reject',)
 
+    def _realfile(self, unit, included):
+        """main.conf + inc.conf on disk (temp dir outside /repo and /verif) loaded by path, or the
+        inlined text loaded from a string"""
+        import io
+        import os
+        import shutil
+        import tempfile
+        import ZConfig
+        ch = REALFILE_STARTS[unit['realfile']]
+        frag = [ch + 'kt 5', '<ta n1>', '  ka 1', '</ta>']
+        schema = P.load_schema(self._xml(unit))
+        try:
+            if not included:
+                cfg, _ = ZConfig.loadConfigFile(schema, io.StringIO(''.join(l + '\n' for l in ['zz top'] + frag)))
+            else:
+                d = tempfile.mkdtemp(prefix='vfc06_')
+                try:
+                    open(os.path.join(d, 'main.conf'), 'w', encoding='utf-8').write('zz top\n%include inc.conf\n')
+                    open(os.path.join(d, 'inc.conf'), 'w', encoding='utf-8').write(''.join(l + '\n' for l in frag))
+                    cfg, _ = ZConfig.loadConfig(schema, os.path.join(d, 'main.conf'))
+                finally:
+                    shutil.rmtree(d, ignore_errors=True)
+        except ZConfig.ConfigurationError:
+            return ('reject',)
+        except Exception as e:
+            return ('crash', type(e).__name__)
+        return ('ok', P.walk(cfg))
+
     def observe(self, unit, inp):
+        if 'realfile' in unit:
+            return self._realfile(unit, True)
         files = self.text_files(unit, inp)
         return self._out(self.real_load(self._xml(unit), files, common.all_concrete(inp)))
 
     def expect(self, unit, inp, real):
+        if 'realfile' in unit:
+            return self._realfile(unit, False)
         if not unit['balanced']:
             return ('reject',)
         files = self.text_files(unit, inp)
